@@ -59,6 +59,16 @@ def check_case(case, ctr):
             bad('concept-set', name, got)
     if V:
         return V
+    # a returned list is the caller's: changing it must not change a later answer
+    first = algorithms.get_concepts(ctx)
+    if isinstance(first, list):
+        del first[:1]
+        first.extend(first[:1])
+        again = [(c.extent.members(), c.intent.members()) for c in algorithms.get_concepts(ctx)]
+        ctr['calls'] += 1
+        if len(again) != len(set(again)) or set(again) != exp:
+            bad('concept-set', 'get_concepts-after-mutating-earlier-result', again)
+            return V
     cl = algorithms.get_concepts(ctx)
     if not isinstance(cl, list):
         bad('get_concepts-is-list', 'get_concepts', [])
